@@ -4,6 +4,7 @@
 
 static int64_t fin_clamp(i128 v) { return v > (i128)MAXF ? MAXF : v < -(i128)MAXF ? -MAXF : (int64_t)v; }
 static int named_entry(const std::string& k) { static std::unordered_map<std::string, int> cache; auto it = cache.find(k); if (it != cache.end()) return it->second; int id = entry_id_or_die(k); cache[k] = id; return id; }
+static int typed_id(const char* prefix, int ti) { static int tab[2][10]; static bool init = false; if (!init) { for (int k = 0; k < NITYPES; ++k) { tab[0][k] = entry_id_or_die(std::string("mul_r_") + ITYPES[k].tok); tab[1][k] = entry_id_or_die(std::string("div_r_") + ITYPES[k].tok); } init = true; } return tab[prefix[0] == 'd'][ti]; }
 static const char* kOpName[4] = { "add", "sub", "mul", "div" };
 static const int kOpFF[4] = { E_add, E_sub, E_mul, E_div };
 
@@ -16,7 +17,7 @@ static void c16_int_check(Ctx& ctx, const Args& a)
   bool conv = m_int_in_range(n); int64_t fn = conv ? (int64_t)(n * 65536) : 0;
   bool exact_scalar = (op == 2) || (op == 3 && form != 1);     // fixed*int, int*fixed, fixed/int use the integer exactly
   if (!conv && !exact_scalar) { ctx.skip(); return; }           // t does not convert to fixed_t: outside the property
-  static int idtab[4][3][8]; static bool idinit = false;
+  static int idtab[4][3][10]; static bool idinit = false;
   if (!idinit) { for (int o = 0; o < 4; ++o) for (int f = 0; f < 3; ++f) for (int k = 0; k < NITYPES; ++k) idtab[o][f][k] = named_entry(f == 2 ? std::string(kOpName[o]) + "eq_" + ITYPES[k].tok : std::string(kOpName[o]) + (f == 0 ? "_r_" : "_l_") + ITYPES[k].tok); idinit = true; }
   int id = idtab[op][form][ti]; int idr = idtab[op][0][ti];
   ctx.cls(kOpName[op]); ctx.cls(form == 0 ? "a-op-t" : form == 1 ? "t-op-a" : "a-op=-t"); ctx.cls(t.tok);
@@ -124,8 +125,8 @@ static void c17_law_check(Ctx& ctx, const Args& a)
   switch (law) {
     case L_ADDSUB: pre = m_finite128((i128)x + y); if (near((i128)x + y)) ctx.nontriv(); break;
     case L_ASSOC: pre = m_finite128((i128)x + y) && m_finite128((i128)y + z) && m_finite128((i128)x + y + z); if (near((i128)x + y) || near((i128)y + z) || near((i128)x + y + z)) ctx.nontriv(); break;
-    case L_NFOLD: if (n < 0 || n > 4096) { ctx.skip(); return; } pre = m_finite128((i128)x * n); if (near((i128)x * n) || n >= 1024) ctx.nontriv(); break;
-    case L_MULDIV: if (n == 0) { ctx.skip(); return; } pre = m_finite128((i128)x * n); if (near((i128)x * n) || iabs128(n) >= 65536) ctx.nontriv(); break;
+    case L_NFOLD: if (n < 0 || n > 4096 || z < 0 || z >= NITYPES || (i128)n > tmax(ITYPES[z])) { ctx.skip(); return; } pre = m_finite128((i128)x * n); if (near((i128)x * n) || n >= 1024) ctx.nontriv(); break;
+    case L_MULDIV: if (n == 0 || z < 0 || z >= NITYPES || tval(ITYPES[z], n) != (i128)n) { ctx.skip(); return; } pre = m_finite128((i128)x * n); if (near((i128)x * n) || iabs128(n) >= 65536) ctx.nontriv(); break;
     case L_MONO: pre = x < y && m_finite128((i128)x + z) && m_finite128((i128)y + z); if (near((i128)x + z) || near((i128)y + z)) ctx.nontriv(); break;
     case L_IDENT: if (iabs128(x) >= ((i128)1 << 47)) { ctx.skip(); return; } if (iabs128(x) >= ((i128)1 << 40)) ctx.nontriv(); break;
     case L_COMM_ADD: case L_SUB_NEG: if (!m_finite128((i128)x + (law == L_SUB_NEG ? -(i128)y : (i128)y)) || near((i128)x + y)) ctx.nontriv(); break;
@@ -154,11 +155,11 @@ static void c17_law_check(Ctx& ctx, const Args& a)
       case L_ADDSUB: if (ctx.call(ci, E_add, x, y, p) && ctx.call(ci, E_sub, p, y, q) && q != x) ctx.fail(ci, strf("(a+b)-b = %" PRId64 " (a=%" PRId64 ", b=%" PRId64 ", a+b=%" PRId64 ")", q, x, y, p)); break;
       case L_ASSOC: if (ctx.call(ci, E_add, x, y, p) && ctx.call(ci, E_add, p, z, q) && ctx.call(ci, E_add, y, z, r) && ctx.call(ci, E_add, x, r, s) && q != s) ctx.fail(ci, strf("(a+b)+c = %" PRId64 " but a+(b+c) = %" PRId64 " (a=%" PRId64 ", b=%" PRId64 ", c=%" PRId64 ")", q, s, x, y, z)); break;
       case L_NFOLD: {
-        if (!ctx.call(ci, E_mul_r_i32, x, n, p)) break;
+        if (!ctx.call(ci, typed_id("mul_r_", (int)z), x, n, p)) break;
         int64_t acc = 0; bool ok = true; for (int64_t i = 0; i < n && ok; ++i) ok = ctx.call(ci, E_add, acc, x, acc);
         if (ok && acc != p) ctx.fail(ci, strf("a*n = %" PRId64 " but a added %" PRId64 " times = %" PRId64 " (a=%" PRId64 ")", p, n, acc, x));
         break; }
-      case L_MULDIV: if (ctx.call(ci, E_mul_r_i64, x, n, p) && ctx.call(ci, E_div_r_i64, p, n, q) && q != x) ctx.fail(ci, strf("(a*n)/n = %" PRId64 " (a=%" PRId64 ", n=%" PRId64 ", a*n=%" PRId64 ")", q, x, n, p)); break;
+      case L_MULDIV: if (ctx.call(ci, typed_id("mul_r_", (int)z), x, n, p) && ctx.call(ci, typed_id("div_r_", (int)z), p, n, q) && q != x) ctx.fail(ci, strf("(a*n)/n = %" PRId64 " (a=%" PRId64 ", n=%" PRId64 ", a*n=%" PRId64 ")", q, x, n, p)); break;
       case L_MONO: if (ctx.call(ci, E_add, x, z, p) && ctx.call(ci, E_add, y, z, q) && ctx.call(ci, E_le, p, q, r) && r != 1) ctx.fail(ci, strf("a<b but a+c = %" PRId64 " > b+c = %" PRId64 " (a=%" PRId64 ", b=%" PRId64 ", c=%" PRId64 ")", p, q, x, y, z)); break;
     }
   }
@@ -169,8 +170,10 @@ static Args c17_law_decode(Ctx&, Dec& d)
   int64_t x = dec_raw(d, bits), y = dec_raw(d, bits), z = dec_raw(d, bits); int mode = (int)d.range(0, 2); uint64_t u = d.u64(); int dl = (int)d.range(-2, 2); bool neg = d.flag();
   int64_t n = 0; i128 T = (i128)MAXF + dl; if (neg) T = -T;
   switch (law) {
-    case L_NFOLD: n = (int64_t)(mode == 0 ? u % 17 : u % 4097); if (mode == 2 && n) x = fin_clamp(T / n); break;
-    case L_MULDIV: n = mode == 0 ? (int64_t)(u % 33) - 16 : (int64_t)(int32_t)(u >> 8) >> (u % 32); if (n == 0) n = 1; if (mode == 2) x = fin_clamp(T / n); break;
+    case L_NFOLD: { int ti = (int)((u >> 48) % NITYPES); z = ti; i128 cap = tmax(ITYPES[ti]) < 4096 ? tmax(ITYPES[ti]) : 4096; n = (int64_t)(mode == 0 ? u % 17 : (u % 4097) % (uint64_t)(cap + 1)); if ((u >> 40) % 4 == 0) n = (int64_t)cap - (int64_t)(u % 3); if (n < 0) n = 0; if (mode == 2 && n) x = fin_clamp(T / n); break; }
+    case L_MULDIV: { int ti = (int)((u >> 48) % NITYPES); z = ti; n = mode == 0 ? (int64_t)(u % 33) - 16 : (int64_t)(int32_t)(u >> 8) >> (u % 32);
+      if ((u >> 44) % 4 == 0) n = dec_int(d, ITYPES[ti]);
+      i128 nv = tval(ITYPES[ti], n); if (nv > (i128)INT64_MAX) nv = tmax(ITYPES[ti]) >> 1; n = (int64_t)nv; if (n == 0) n = 1; if (mode == 2) x = fin_clamp(T / n); break; }
     case L_ADDSUB: if (mode) y = fin_clamp(T - x); break;
     case L_ASSOC: if (mode == 1) y = fin_clamp(T - x); else if (mode == 2 && m_finite128((i128)x + y)) z = fin_clamp(T - ((i128)x + y)); break;
     case L_MONO: if (x > y) std::swap(x, y); if (mode) z = fin_clamp(T - y); break;
@@ -181,7 +184,7 @@ static Args c17_law_decode(Ctx&, Dec& d)
   return { law, x, y, z, n };
 }
 static Reg r_c17_law({ "C17.laws", "C17", "rc",
-  "triples of finite raw values in four magnitude classes (|raw| < 2^63, 2^62, 2^47, 2^30) and integers n, per law: commutativity of + and * (bit-for-bit), a-b==a+(-b), a-a==0, identities for |a|<2^31 (a*1, a*0, a/1 with fixed and integer operands, a/a==1), and under the precondition that no intermediate is NaN IN THE EXACT MODEL: (a+b)-b==a, associativity of +, a*n == n-fold sum (0<=n<=4096), (a*n)/n==a, a<b => a+c<=b+c; operands are targeted so that intermediates land at +-MAXF+-2; oracle: relations between library outputs only; non-trivial = an intermediate within 2^17 of +-MAXF (or beyond), n >= 1024 / |n| >= 65536, |a| >= 2^40 for the identities",
+  "triples of finite raw values in four magnitude classes (|raw| < 2^63, 2^62, 2^47, 2^30) and integers n, per law: commutativity of + and * (bit-for-bit), a-b==a+(-b), a-a==0, identities for |a|<2^31 (a*1, a*0, a/1 with fixed and integer operands, a/a==1), and under the precondition that no intermediate is NaN IN THE EXACT MODEL: (a+b)-b==a, associativity of +, a*n == n-fold sum (0<=n<=4096), (a*n)/n==a, a<b => a+c<=b+c; the scalar laws use n of every integral type (int8..uint64, long long, unsigned long long; the third argument carries the type); operands are targeted so that intermediates land at +-MAXF+-2; oracle: relations between library outputs only; non-trivial = an intermediate within 2^17 of +-MAXF (or beyond), n >= 1024 / |n| >= 65536, |a| >= 2^40 for the identities",
   c17_law_check, 32, c17_law_decode, nullptr });
 
 // ================================================================ C17 histories
